@@ -9,15 +9,19 @@
 #include "ptree-avl.c"
 #include "ptree.c"
 static pint cmp (pconstpointer a, pconstpointer b, ppointer d) { return 0; }
+static void kd (ppointer p) {} static void vd (ppointer p) {}
 void h_tree_new (void)
 {
 	int type = nondet_int (); _Bool with_cmp = nondet_bool ();
 	START ();
-	PTree *t = p_tree_new_full ((PTreeType) type, with_cmp ? cmp : NULL, NULL, NULL, NULL);
+	_Bool kn = nondet_bool (), vn = nondet_bool (); int udata;
+	PTree *t = p_tree_new_full ((PTreeType) type, with_cmp ? cmp : NULL, &udata, kn ? kd : NULL, vn ? vd : NULL);
 	_Bool valid = type >= (int) P_TREE_TYPE_BINARY && type <= (int) P_TREE_TYPE_AVL && with_cmp;
 	if (t == NULL) { OBL ((!valid || g_alloc_failed) && g_allocs == g_frees, "failed p_tree_new_full: invalid arguments or allocation failure, nothing kept"); CANARY ("new failed"); return; }
 	OBL (valid && t->root == NULL && p_tree_get_nnodes (t) == 0 && p_tree_get_type (t) == (PTreeType) type, "an empty tree of the requested type");
 	OBL (t->insert_node_func != NULL && t->remove_node_func != NULL && t->free_node_func != NULL, "operations table complete");
+	OBL (t->compare_func == cmp && t->data == (ppointer) &udata && t->key_destroy_func == (kn ? kd : NULL) && t->value_destroy_func == (vn ? vd : NULL),
+	     "C14: comparator, its user data and exactly the given notifiers (each independently, none invented) are recorded");
 	p_tree_free (t);
 	OBL (g_allocs == g_frees, "new/free leaves nothing");
 	CANARY ("new/free");
@@ -73,6 +77,11 @@ void h_hash_ctx (void)
 	START ();
 	ALG_TYPE *c = ALG_NEW ();
 	if (c == NULL) { OBL (g_alloc_failed && g_allocs == g_frees, "failed context constructor: NULL (the reset is not run on a NULL context), nothing kept"); CANARY ("new failed"); return; }
+	/* C11: a new context is in the reset state of ITS variant (224 vs 256, 384 vs 512, the four SHA-3 widths): running the
+	 * family's reset on it changes nothing */
+	ALG_TYPE before = *c; unsigned i = nondet_uint (); __CPROVER_assume (i < sizeof (ALG_TYPE));
+	ALG_RESET (c);
+	OBL (((const unsigned char *) &before)[i] == ((const unsigned char *) c)[i], "a new hash context equals the reset context of its variant (byte i, every i)");
 	ALG_FREE (c);
 	OBL (g_allocs == g_frees, "new/free leaves nothing");
 	CANARY ("new/free");
